@@ -57,7 +57,7 @@ fn gen_field(w: &World, lo: u64, hi: u64, first_col: bool) -> String {
     let mut s = match w.draw(12) {
         0 => WORDS[w.draw(WORDS.len() as u64) as usize].to_string(),
         1 => string_from(w, field_chars(), lo, hi.max(300)),
-        3 if w.chance(1, 600) => {
+        3 if w.chance(1, 600) && w.take_big(1 << 21) => {
             // a field of a megabyte: beyond every internal buffer
             w.probe("megabyte_field");
             std::iter::repeat('m').take(*w.pick(&[1usize << 20, (1 << 20) + 1, 70_000, 65_536])).collect()
@@ -183,11 +183,16 @@ fn gen_bed(w: &World) -> (Vec<BedModel>, usize) {
     let k = if w.chance(1, 40) { w.small(0, 40) as usize } else { w.small(0, 9) as usize };
     let mut v: Vec<BedModel> = vec![];
     let many = w.chance(1, 100);
+    // (1 many-records run in 12: thousands of records)
+    let thousands = many && w.chance(1, 12);
     if many {
         w.probe("many_records_regime");
     }
+    if thousands {
+        w.probe("thousands_of_records");
+    }
     loop {
-        let go = if many { w.more_p(v.len() as u64, 300, 100, 101) } else { w.more(v.len() as u64, 5) };
+        let go = if thousands { w.more_p(v.len() as u64, 4000, 1500, 1501) } else if many { w.more_p(v.len() as u64, 300, 100, 101) } else { w.more(v.len() as u64, 5) };
         if !go {
             break;
         }
@@ -207,7 +212,12 @@ fn gen_bed(w: &World) -> (Vec<BedModel>, usize) {
         if w.chance(1, 12) {
             w.probe("related_fields_or_records");
             match (w.draw(4), v.last()) {
-                (0, Some(prev)) => m = prev.clone(),
+                (0, Some(prev)) => {
+                    let size: usize = prev.chrom.len() + prev.aux.iter().map(|x| x.len()).sum::<usize>();
+                    if size < 65_536 || w.take_big(size) {
+                        m = prev.clone();
+                    }
+                }
                 (1, Some(prev)) => m.chrom = prev.chrom.clone(),
                 (2, _) => m.end = m.start,
                 _ => {
@@ -349,11 +359,16 @@ fn gen_attr_string(w: &World, d: Dialect, is_key: bool) -> String {
 fn gen_gff(w: &World, d: Dialect) -> Vec<GffModel> {
     let mut v: Vec<GffModel> = vec![];
     let many = w.chance(1, 100);
+    // (1 many-records run in 12: thousands of records)
+    let thousands = many && w.chance(1, 12);
     if many {
         w.probe("many_records_regime");
     }
+    if thousands {
+        w.probe("thousands_of_records");
+    }
     loop {
-        let go = if many { w.more_p(v.len() as u64, 300, 100, 101) } else { w.more(v.len() as u64, 4) };
+        let go = if thousands { w.more_p(v.len() as u64, 4000, 1500, 1501) } else if many { w.more_p(v.len() as u64, 300, 100, 101) } else { w.more(v.len() as u64, 4) };
         if !go {
             break;
         }
@@ -410,6 +425,22 @@ fn gen_gff(w: &World, d: Dialect) -> Vec<GffModel> {
                 }
             }
             attrs.push((key, vals));
+        }
+        if !attrs.is_empty() && w.chance(1, 2500) && w.take_big(12 << 20) {
+            // scale, far beyond what the other regimes reach: one key with tens of thousands of
+            // values, or one value of several MiB (16-bit counters, size limits, splitn bounds)
+            let k = w.draw(attrs.len() as u64) as usize;
+            // (GFF2 and GTF2 repeat the key for every value: only a short key gets the many values)
+            if w.chance(1, 2) && attrs[k].0.len() <= 32 {
+                let n = *w.pick(&[65_535usize, 65_536, 65_537, 70_000, 4096, 1024]);
+                let c = *w.pick(&['v', '1', 'é']);
+                attrs[k].1 = (0..n).map(|i| if i % 7 == 0 { format!("{}{}", c, i % 10) } else { c.to_string() }).collect();
+                w.probe("key_with_tens_of_thousands_of_values");
+            } else {
+                let n = *w.pick(&[(4usize << 20) + 1, 4 << 20, 5_000_000, (1 << 20) + 1]);
+                attrs[k].1 = vec![std::iter::repeat('m').take(n).collect()];
+                w.probe("attribute_value_of_several_mib");
+            }
         }
         let nkeys = attrs.len();
         // hash iteration order: a permutation of the keys, drawn by the simulator
@@ -468,7 +499,13 @@ fn gen_gff(w: &World, d: Dialect) -> Vec<GffModel> {
                         m.order.reverse();
                     }
                 }
-                (0, Some(prev)) => m = prev.clone(), // the identical line twice in a row
+                (0, Some(prev)) => {
+                    // the identical line twice in a row (a large one is charged to the budget again)
+                    let size: usize = prev.attrs.iter().map(|(k, vs)| k.len() + vs.iter().map(|x| x.len() + 24).sum::<usize>()).sum::<usize>() + prev.seqname.len() + prev.source.len() + prev.feature.len();
+                    if size < 65_536 || w.take_big(size) {
+                        m = prev.clone();
+                    }
+                }
                 (1, Some(prev)) => m.seqname = prev.seqname.clone(),
                 (2, _) => m.source = m.seqname.clone(),
                 (3, _) => m.end = m.start,
